@@ -85,6 +85,17 @@ fn int_leg(g: &Grammar) -> Acc {
             lits.push((format!("i-000{mag}"), RV::Int(v)));
         }
     }
+    // zero padding up to and beyond the number of digits the widest value has in each radix
+    // (32 hex / 43 octal / 127 binary / 39 decimal): padding never changes the value
+    for v in [0i128, 1, 255, i64::MAX as i128, u64::MAX as i128, (1i128 << 96) + 7, i128::MAX - 1, i128::MAX] {
+        for w in [31usize, 32, 33, 34, 40, 43, 44, 45, 64, 65, 126, 127, 128, 129, 130, 200, 300] {
+            lits.push((format!("0x{v:0w$x}"), RV::Int(v)));
+            lits.push((format!("0o{v:0w$o}"), RV::Int(v)));
+            lits.push((format!("0b{v:0w$b}"), RV::Int(v)));
+            lits.push((format!("i{v:0w$}"), RV::Int(v)));
+            lits.push((format!("i-{v:0w$}"), RV::Int(-v)));
+        }
+    }
     let mut acc = lits
         .par_chunks(200)
         .map(|chunk| {
@@ -379,6 +390,42 @@ fn decimal_leg(g: &Grammar) -> Acc {
             acc
         })
         .reduce(Acc::new, |a, b| a.merge(b));
+    // more fractional digits than the type holds: short mantissas written with 29..45 fractional
+    // digits, as leading zeros (rounded: the result is left open, but nothing may panic) and as
+    // trailing zeros (nothing to round: value and scale 28 are fixed)
+    {
+        // (a list literal is only as specified as its least specified item, so the two families go
+        // into separate batches)
+        let mut open: Vec<String> = Vec::new();
+        let mut fixed: Vec<String> = Vec::new();
+        for k in 27..=45usize {
+            for m in ["1", "5", "15", "123", "999", "4999", "5000", "5001", "123456789012345678", "1234567890123456789"] {
+                if m.len() <= k {
+                    open.push(format!("d0.{}{m}", "0".repeat(k - m.len())));
+                    open.push(format!("d-0.{}{m}", "0".repeat(k - m.len())));
+                    fixed.push(format!("d0.{m}{}", "0".repeat(k - m.len())));
+                    open.push(format!("d{m}.{m}{}", "0".repeat(k - m.len()))); // needs more than 96 bits at scale 28
+                    fixed.push(format!("d-1.{m}{}", "0".repeat(k - m.len())));
+                }
+            }
+            fixed.push(format!("d1.5{}", "0".repeat(k)));
+            open.push(format!("d10.{}", "0".repeat(k)));
+            fixed.push(format!("d7.{}", "0".repeat(k)));
+            fixed.push(format!("d-7.5{}", "0".repeat(k)));
+            fixed.push(format!("d0.{}", "0".repeat(k)));
+            open.push(format!("d7.{}", "9".repeat(k)));
+        }
+        let acc2 = open
+            .par_chunks(50)
+            .chain(fixed.par_chunks(50))
+            .map(|chunk| {
+                let mut a = Acc::new();
+                check_batch(g, chunk, None, &mut a);
+                a
+            })
+            .reduce(Acc::new, |a, b| a.merge(b));
+        acc = acc.merge(acc2);
+    }
     for t in [
         "d79228162514264337593543950336",
         "d-79228162514264337593543950336",
